@@ -14,8 +14,28 @@ pub struct C10;
 const HM_BODY: &str = "[spin: #['int, 'int] { | =[0, acc] => acc | =[n, acc] => [[n, 1] __integer_subtract__, [acc, 2] __integer_add__] ^ }, inc: #'int { [~, 1] __integer_add__ }, k: [0x01, 0x02] __binary_concat__, t: P[x: 1, y: 0x0a]]";
 
 /// Subject programs: (definitions, body, uses the `hm` helper record)
-fn subjects(rng: &mut Rng) -> (String, String, bool, &'static str) {
-    match rng.below(8) {
+fn subjects(rng: &mut Rng) -> (String, String, bool, &'static str, Vec<String>) {
+    let (a, b, c, d) = subjects_inner(rng);
+    let sib = siblings(d, &a);
+    (a, b, c, d, sib)
+}
+
+/// History programs that share the subject's aliases and pattern types but inhabit them with other
+/// concrete types (so tables computed for them are *related* to the subject's, not merely shifted).
+fn siblings(kind: &str, defs: &str) -> Vec<String> {
+    match kind {
+        "union-dispatch" => vec![format!("{defs}, #{{ Circle[r: 3] area }}"), format!("{defs}, #{{ Tri[1, 1, 1] area }}")],
+        "option" => vec![format!("{defs}, #{{ Some[1] f }}"), format!("{defs}, #{{ None f }}")],
+        "classify" => vec![format!("{defs}, hh = #'int {{ ~ }}, #{{ &hh g }}"), format!("{defs}, #{{ 5 g }}")],
+        "recursive-type" => vec![format!("{defs}, #{{ [Nil, 0] sum }}")],
+        "closure-binary-capture" => vec![format!("{defs}, #{{ 5 h }}")],
+        "typed-receive-process" => vec![format!("{defs}, #{{ s = 1 @srv, Stop s, !s }}")],
+        _ => vec![],
+    }
+}
+
+fn subjects_inner(rng: &mut Rng) -> (String, String, bool, &'static str) {
+    match rng.below(10) {
         0 => (
             "'shape = Circle[r: 'int] | Rect[w: 'int, h: 'int] | Tri['int, 'int, 'int], area = #'shape { | =Circle[r: r] => [r, r] __integer_multiply__ | =Rect[w: w, h: h] => [w, h] __integer_multiply__ | =Tri[a, b, c] => [a, [b, c] __integer_add__] __integer_add__ }".into(),
             format!("[Circle[r: {}] area, Rect[w: 2, h: {}] area, Tri[1, 2, 3] area]", rng.range(1, 9), rng.range(1, 9)),
@@ -52,6 +72,18 @@ fn subjects(rng: &mut Rng) -> (String, String, bool, &'static str) {
             true,
             "module-record",
         ),
+        6 => (
+            "'v = 'int | 'bin, 'opt = Some['v] | None, f = #'opt { | =Some[x] => x | 0 }".into(),
+            format!("[Some[0x{:02x}] f, Some[{}] f, None f]", rng.range(1, 250), rng.range(1, 99)),
+            false,
+            "option",
+        ),
+        7 => (
+            "g = #('int | (#'int -> 'int)) { | =(#'int -> 'int) => 1 | 0 }".into(),
+            format!("k = #'int {{ [~, {}] __integer_add__ }}, [&k g, 5 g]", rng.range(1, 9)),
+            false,
+            "classify",
+        ),
         _ => {
             // the confluent process family of C03
             let mut budget = 5i32;
@@ -81,6 +113,8 @@ const HISTORY_LINES: [&str; 4] = ["q1 = Other[a: 1, b: 0x0102]", "'msg = Add['bi
 struct Expect {
     defs: String,
     body: String,
+    #[serde(default)]
+    siblings: Vec<String>,
     uses_hm: bool,
     reference: Option<Out>,
     kind: String,
@@ -112,11 +146,11 @@ impl Property for C10 {
         vec!["history_leg_runs", "configuration_leg_runs", "subject_tree_shaken", "subject_json_roundtrip", "subject_via_repl", "subject_module_import", "merge_while_subject_running", "history_program_still_running_at_merge", "worker_tables_compared"]
     }
     fn generate(&self, rng: &mut Rng, _tier: Tier) -> Scenario {
-        let (defs, body, uses_hm, kind) = subjects(rng);
+        let (defs, body, uses_hm, kind, siblings) = subjects(rng);
         let mut h = crate::rng::Fnv::default();
         h.str(kind);
         h.str(&body.chars().filter(|c| !c.is_ascii_digit()).collect::<String>());
-        let e = Expect { defs, body, uses_hm, reference: None, kind: kind.to_string() };
+        let e = Expect { defs, body, siblings, uses_hm, reference: None, kind: kind.to_string() };
         Scenario {
             family: format!("c10-{kind}"),
             ops: vec![],
@@ -154,7 +188,16 @@ impl Property for C10 {
         let nhist = if rng.chance(1, 4) { 0 } else { 1 + rng.usize(6) };
         let mut during: Vec<ClientOp> = Vec::new();
         for _ in 0..nhist {
-            let op = if rng.chance(1, 3) {
+            let op = if !e.siblings.is_empty() && rng.chance(1, 2) {
+                // a sibling of the subject: same aliases and pattern types, other inhabitants
+                let src = rng.pick(&e.siblings).clone();
+                if rng.chance(1, 3) {
+                    // as lines of a second REPL session (strip the run-path wrapper)
+                    ClientOp::Line { session: 1, src: src.replace("#{ ", "").trim_end_matches(" }").to_string() }
+                } else {
+                    ClientOp::Run { src, shake: rng.chance(1, 2), json: rng.chance(1, 4), wait: rng.chance(1, 2) }
+                }
+            } else if rng.chance(1, 3) {
                 ClientOp::Line { session: 1, src: rng.pick(&HISTORY_LINES).to_string() }
             } else {
                 ClientOp::Run { src: rng.pick(&HISTORY).to_string(), shake: rng.chance(1, 2), json: rng.chance(1, 4), wait: rng.chance(1, 2) }
